@@ -34,6 +34,7 @@
    (URLFiltersPostURLImportSetupTask, after InputURLTask) into the span-hosts filter are
    modelled: [st_hosts] is persistent, [st_span] is what the running process holds. *)
 From Coq Require Import List NArith Bool Arith.
+From Wpull Require Import Gen.Consts.
 Import ListNotations.
 Open Scope N_scope.
 
@@ -143,9 +144,10 @@ Inductive label :=
 
 Definition start_info (u : url) : rinfo := mkInfo u 0 None u u.
 
-(* the size at which ItemSession.add_url flushes its batch (wpull/pipeline/session.py; tied to the source by
-   Gen/Consts.v gen_child_batch_size, Proofs/ConstsAgree.v) *)
-Definition flush_size : nat := 1000.
+(* the size at which ItemSession.add_url flushes its batch: READ FROM THE SOURCE on every run (Gen/Consts.v
+   gen_child_batch_size, regenerated from wpull/pipeline/session.py); the proofs use only that it is positive, so a
+   different batch size in the code changes the model with it and leaves every theorem standing *)
+Definition flush_size : nat := N.to_nat gen_child_batch_size.
 Fixpoint chunks (fuel : nat) (l : list rinfo) : list (list rinfo) :=
   match fuel with
   | O => []
